@@ -3,6 +3,7 @@ package txm
 import (
 	"fmt"
 	"sort"
+	"strings"
 	"sync"
 	"testing"
 	"time"
@@ -371,7 +372,7 @@ func intsTo(n int) []int {
 	return r
 }
 
-const ruleE2E = "two verified real BitcoinNodes sharing one TxManager (request timeout 1 h) over loopback TCP, each against its own scripted peer: a drawn script of inv announcements (1..3 txids each, new / already outstanding / already delivered) and tx deliveries (solicited or not) from either peer; in half of the cases everything the scripted peer writes is cut into pieces of 1..100 bytes over the first 600 bytes of each send (TCP segmentation at arbitrary offsets); oracle: a getdata goes to a peer for exactly the txids that were new when that peer announced them (one getdata entry per new txid, none for a txid outstanding at the other peer or already delivered), and every delivered transaction reaches the processor exactly once; non-trivial = a txid announced by both peers; distinct = the script"
+const ruleE2E = "two verified real BitcoinNodes sharing one TxManager (request timeout 1 h) over loopback TCP, each against its own scripted peer: a drawn script of inv announcements (1..3 txids each, new / already outstanding / already delivered) and tx deliveries (solicited or not) from either peer, in one case of eight followed by one inv of 49 999..100 001 fresh txids (more than one getdata may hold); in half of the cases everything the scripted peer writes is cut into pieces of 1..100 bytes over the first 600 bytes of each send (TCP segmentation at arbitrary offsets); oracle: a getdata goes to a peer for exactly the txids that were new when that peer announced them (one getdata entry per new txid, none for a txid outstanding at the other peer or already delivered), and every delivered transaction reaches the processor exactly once; non-trivial = a txid announced by both peers; distinct = the script"
 
 func TestProp_C06_e2e(t *testing.T) {
 	col := evid.For("C06", "e2e", ruleE2E)
@@ -443,22 +444,40 @@ func TestProp_C06_e2e(t *testing.T) {
 				t.Fatalf("peer %d: no pong after step %d", p, s)
 			}
 		}
+		// optionally one announcement larger than a getdata message may hold (50 000 entries): the
+		// node has to spread its request over several getdata messages
+		if rapid.IntRange(0, 7).Draw(t, "hugeInv") == 0 {
+			p := rapid.IntRange(0, 1).Draw(t, "hugePeer")
+			n := rapid.SampledFrom([]int{49999, 50000, 50001, 50002, 100000, 100001}).Draw(t, "hugeCount")
+			list := make([]model.Hash, n)
+			for i := range list {
+				list[i] = model.DoubleSHA([]byte(fmt.Sprintf("huge-%d-%d", steps, i)))
+				wantGetdata[p][list[i]]++
+			}
+			ss[p].Peer.Send(p2p.Inv(1, list))
+			ss[p].Peer.Send(p2p.Ping(999999))
+			if !ss[p].Peer.WaitPong(999999, 30*time.Second) {
+				t.Fatalf("peer %d: no pong after an inv of %d items", p, n)
+			}
+			k.Op("p%d inv of %d fresh txids", p, n)
+			k.Class("huge-inv")
+		}
 		for p := range ss {
 			got := map[model.Hash]int{}
 			for _, f := range ss[p].Peer.Received() {
 				if f.Command != "getdata" {
 					continue
 				}
-				pl := f.Payload
-				cnt := int(pl[0])
-				for i := 0; i < cnt; i++ {
-					var h model.Hash
-					copy(h[:], pl[1+i*36+4:1+i*36+36])
+				hashes, err := parseGetdata(f.Payload)
+				if err != nil {
+					t.Fatalf("peer %d: %s", p, err)
+				}
+				for _, h := range hashes {
 					got[h]++
 				}
 			}
-			if fmt.Sprint(sortedCounts(got)) != fmt.Sprint(sortedCounts(wantGetdata[p])) {
-				t.Fatalf("peer %d received getdata for %v, expected %v", p, sortedCounts(got), sortedCounts(wantGetdata[p]))
+			if diff := diffCounts(got, wantGetdata[p]); diff != "" {
+				t.Fatalf("peer %d received getdata for %d txids, expected %d: %s", p, len(got), len(wantGetdata[p]), diff)
 			}
 		}
 		tm.Stop(ctx)
@@ -479,6 +498,55 @@ func TestProp_C06_e2e(t *testing.T) {
 		}
 		k.Done()
 	})
+}
+
+// parseGetdata decodes a getdata payload (var-int count, 36-byte entries).
+func parseGetdata(pl []byte) ([]model.Hash, error) {
+	if len(pl) < 1 {
+		return nil, fmt.Errorf("empty getdata")
+	}
+	cnt, off := 0, 1
+	switch {
+	case pl[0] < 0xfd:
+		cnt = int(pl[0])
+	case pl[0] == 0xfd && len(pl) >= 3:
+		cnt, off = int(pl[1])|int(pl[2])<<8, 3
+	case pl[0] == 0xfe && len(pl) >= 5:
+		cnt, off = int(pl[1])|int(pl[2])<<8|int(pl[3])<<16|int(pl[4])<<24, 5
+	default:
+		return nil, fmt.Errorf("getdata count prefix %x", pl[0])
+	}
+	if cnt > 50000 {
+		return nil, fmt.Errorf("getdata with %d entries (the protocol maximum is 50000)", cnt)
+	}
+	if len(pl) != off+cnt*36 {
+		return nil, fmt.Errorf("getdata payload of %d bytes for %d entries", len(pl), cnt)
+	}
+	out := make([]model.Hash, cnt)
+	for i := range out {
+		copy(out[i][:], pl[off+i*36+4:off+i*36+36])
+	}
+	return out, nil
+}
+
+// diffCounts describes up to six differences between two txid -> count maps ("" when equal).
+func diffCounts(got, want map[model.Hash]int) string {
+	var d []string
+	for h, c := range want {
+		if got[h] != c {
+			d = append(d, fmt.Sprintf("%s requested x%d, expected x%d", h.String()[:8], got[h], c))
+		}
+	}
+	for h, c := range got {
+		if _, ok := want[h]; !ok {
+			d = append(d, fmt.Sprintf("%s requested x%d, expected x0", h.String()[:8], c))
+		}
+	}
+	sort.Strings(d)
+	if len(d) > 6 {
+		d = append(d[:6], fmt.Sprintf("... %d differences", len(d)))
+	}
+	return strings.Join(d, "; ")
 }
 
 func sortedCounts(m map[model.Hash]int) []string {
